@@ -144,6 +144,18 @@ CHECKS = {
             "Quiescence not reached in 4 s is inconclusive. An injected drift that is never detected (8-bit checksum collision with a lagging "
             "queue tick, or no later update) is counted and not asserted, as the statement speaks of detected drift. Low case counts (real sockets).",
             "model-free system-level property-based testing (rapid) with fault injection and harness-owned schedule points", "DESIGN.md §5 C09"),
+    "C15": ("exploration",
+            "(a) Exhaustive enumeration: BFS over single-state Add/Remove of every reachable active set of the shipped node SupervisorSchema and "
+            "WorkerSchema restricted to the states that can influence the PoolStatus / PoolNormalized / WorkStatus groups (closure under relations), "
+            "asserting at most one member active. (b) Stateful property-based testing of a real node.Supervisor whose TestFork/TestKill seams are owned "
+            "by the harness (fork = start an in-process node.Worker over loopback RPC, fail, or delay): generated Min/Max/Warm 0..6, fork scripts and "
+            "sequences of concurrent external ForkWorker bursts, worker stops, worker errors, kill requests, Heartbeat and NormalizingPool rounds. A "
+            "tracer on the supervisor machine samples (tracked, ready, min) at TransitionStart and TransitionEnd through a verif accessor: tracked <= Max "
+            "always; PoolReady activates only with ready >= min(Min,Max) and is not withdrawn while ready >= min; more than WorkerErrKill errors for "
+            "one worker => a kill is requested for it; group exclusivity at every transition of the supervisor and of every worker machine.",
+            "Slow system test (real RPC handshakes): quick 10 cases, thorough 320. Readiness is judged only when both samples of a transition agree. "
+            "Real OS process forks are not exercised (the seams replace them).",
+            "bounded exhaustive enumeration + stateful property-based testing (rapid) with fault injection through the TestFork/TestKill seams and an invariant tracer", "DESIGN.md §5 C15"),
     "C16": ("exploration",
             "Model-based property-based testing of am-dbg: one headless debugger per process (tcell simulation screen, the real telemetry server on a "
             "loopback port); per case 1-2 real machines with generated schema, handler table and history (queued, canceled, auto and - with EnableCan - "
